@@ -174,6 +174,13 @@ def run(R):
             if c.args and not isinstance(c.args[0], ast.Name):
                 body = c.args[0].body if isinstance(c.args[0], ast.Lambda) else None
                 okl = body is not None and isinstance(body, ast.Call) and q.call_name(body) in pop_names and body.args and q.src(body.args[0]) == key and len(body.args) == 2
+                has_is = any(isinstance(x, ast.Compare) and len(x.ops) == 1 and isinstance(x.ops[0], ast.Is) for x in ast.walk(c.args[0]))
+                R.check(has_is, "C12.PAIR", asy.qualname + ":callback-own", R.site(asy, c),
+                        "the completion callback removes the key only while the table still holds this very task under it",
+                        "the completion callback (`%s`) removes whatever is stored under the key: after dirty() and a new call, the completion of the older task "
+                        "removes the newer, still running task's entry" % q.src(c.args[0])[:70])
+                if has_is:
+                    continue
                 R.check(okl, "C12.PAIR", asy.qualname + ":callback", R.site(asy, c),
                         "the completion callback removes exactly the key the task was stored under",
                         "the completion callback (`%s`) does not remove the key the task was stored under (a key recomputed when the task completes - on "
@@ -189,6 +196,26 @@ def run(R):
             if pops:
                 R.check(len(pops[0].args) == 2, "C12.PAIR", asy.qualname + ":callback-tolerant", R.site(cbf[0]),
                         "the removal tolerates a key that dirty() already removed", "the removal raises KeyError after dirty()")
+            # the callback removes the entry only if it still is this task's: after dirty() the key may have been given to a newer task
+            # that is in flight - removing that entry lets the next caller start a third execution next to it
+            ccfg = cfg_of(cbf[0])
+            cparams = q.param_names(cbf[0].node)
+            me = set(cparams[:1]) | set([tv.id])
+            rm_nodes = [x for x in ccfg.nodes if any(c_ in pops for c_ in kit.node_calls(x)) or (x.kind == "stmt" and x.ast in dels)]
+
+            def own_entry(nd):
+                if nd.kind != "test":
+                    return None
+                k_, s_, pos_ = q.atom_test(nd.ast)
+                if k_ == "is" and isinstance(s_, tuple) and any(x in me for x in s_) and any(any(t_ in x for t_ in table_names) and key in x for x in s_):
+                    return "T" if pos_ else "F"
+                return None
+            po = kit.path_avoiding_guard(ccfg, rm_nodes, own_entry, N) if rm_nodes else ["no removal"]
+            R.check(po is None, "C12.PAIR", asy.qualname + ":callback-own", R.site(cbf[0]),
+                    "the completion callback removes the key only while the table still holds this very task under it",
+                    "the completion callback removes whatever is stored under the key: after dirty() and a new call, the completion of the older task removes "
+                    "the newer, still running task's entry - the next caller is not handed the in-flight task and the body runs a third time",
+                    ccfg.fmt_path(po) if isinstance(po, list) and po and not isinstance(po[0], str) else None)
     # HIT: returns the stored task unless running; the running path returns a fresh task
     rets = [n for n in cfg.nodes if n.kind == "stmt" and isinstance(n.ast, ast.Return) and n.ast.value is not None]
 
@@ -266,6 +293,30 @@ def run(R):
         p = kit.path_avoiding_guard(decfg, dflt, none_key, N)
         R.check(p is None, "C12.WIRING", de.qualname + ":custom-kept", R.site(de), "the default key function replaces the key getter only when none was given",
                 "a custom keygetter can be overwritten by the default key function", decfg.fmt_path(p) if p else None)
+    # every default key function is a function of the call's arguments: it hands its own (args, kwargs) to _args_key.  A shortcut that
+    # returns a constant for "functions without parameters" forgets *args/**kwargs-only signatures: calls with different arguments
+    # get one key and share a task
+    for k_, v_ in kvals:
+        if k_ != "expr" or q.src(v_) == "keygetter":
+            continue
+        fn_ = v_ if isinstance(v_, ast.Lambda) else None
+        if fn_ is None and isinstance(v_, ast.Name):
+            nf_ = [f for f in de.nested.values() if f.node.name == v_.id]
+            fn_ = nf_[0].node if nf_ else None
+        if fn_ is None:
+            continue
+        ps_ = [a.arg for a in fn_.args.args]
+        body_calls = [c for c in ast.walk(fn_) if isinstance(c, ast.Call) and q.call_name(c) in ("_args_key", "get_args_tuple")]
+        uses_args = len(ps_) >= 2 and any([q.src(a) for a in c.args[:2]] == ps_[:2] for c in body_calls)
+        R.check(uses_args, "C12.KEY", de.qualname + ":default-key:" + str(getattr(v_, "lineno", 0) - de.node.lineno), R.site(de, v_),
+                "the default key function normalises the call's own (args, kwargs)",
+                "a default key function (`%s`) does not depend on the call's arguments: for a signature it was not meant for (only *args / **kwargs) calls with "
+                "different arguments get the same key - the later caller is handed the in-flight task of another key and its own body never runs" % q.src(v_)[:60])
+    for n_ in [x for x in q.scope_nodes(de.node) if isinstance(x, ast.FunctionDef) and x.name == "_keygetter"]:
+        body_calls = [c for c in ast.walk(n_) if isinstance(c, ast.Call) and q.call_name(c) in ("_args_key", "get_args_tuple")]
+        ps_ = [a.arg for a in n_.args.args]
+        R.check(len(ps_) >= 2 and any([q.src(a) for a in c.args[:2]] == ps_[:2] for c in body_calls), "C12.KEY", de.qualname + ":default-key:def", R.site(de, n_),
+                "the default key function normalises the call's own (args, kwargs)", "the default key function does not depend on the call's arguments")
     # the in-flight table never forgets an entry on its own
     tv = dd.class_assigns.get("tasks")
     okt = tv is not None and ((isinstance(tv.value, ast.Dict) and not tv.value.keys) or (isinstance(tv.value, ast.Call) and q.call_name(tv.value) in ("dict", "collections.OrderedDict", "OrderedDict") and not tv.value.args))
